@@ -52,6 +52,31 @@ func (s *radiusStore) Close() error         { return nil }
 
 var verdictNames = []string{"accepted", "declined", "alreadyStored", "notWithinRadius", "rateLimited", "inProgress", "unspecified"}
 
+// decodeAcceptOn is decodeAccept for a reply of node nd to an offer of these keys. A connection id of 0 normally means "no
+// transfer was set up", but 0 is also an id the uTP library may draw (once in 65536 transfers): when the reply accepts keys,
+// names id 0, and the node has marked every accepted key as being received, a transfer WAS set up and the id is a real one.
+func decodeAcceptOn(nd *realNode, version uint8, resp []byte, keys [][]byte) string {
+	s := decodeAccept(version, resp, len(keys))
+	f := strings.Fields(s)
+	if len(f) != 2 || f[1] != "conn=0" {
+		return s
+	}
+	vs := strings.Split(strings.TrimPrefix(f[0], "verdicts="), ",")
+	accepted := 0
+	for i, v := range vs {
+		if v == "accepted" {
+			if i >= len(keys) || !nd.p.VerifTransferringHas(keys[i]) {
+				return s
+			}
+			accepted++
+		}
+	}
+	if accepted > 0 {
+		return f[0] + " conn=1"
+	}
+	return s
+}
+
 func decodeAccept(version uint8, resp []byte, nKeys int) string {
 	if len(resp) == 0 || resp[0] != portalwire.ACCEPT {
 		return "badreply"
@@ -150,7 +175,7 @@ func runOffer(o *Out, r *rand.Rand, thorough bool, _ []string) {
 			o.Case(input, "error")
 			continue
 		}
-		o.Case(input, decodeAccept(version, resp, nKeys))
+		o.Case(input, decodeAcceptOn(nd, version, resp, keys))
 	}
 	// overlapping offers of the same fresh key, back to back (version 1): the second must see the first's transfer in
 	// progress - the in-flight mark has to be in place when the first reply is given
@@ -178,7 +203,7 @@ func runOffer(o *Out, r *rand.Rand, thorough bool, _ []string) {
 			o.Case("overlap", "error")
 			continue
 		}
-		o.Case("overlap", decodeAccept(1, r1, 1)+" / "+decodeAccept(1, r2, 1))
+		o.Case("overlap", decodeAcceptOn(slots, 1, r1, [][]byte{key})+" / "+decodeAccept(1, r2, 1))
 	}
 	// the life cycle of the in-flight mark (version 1): a sequence of offers over a small pool of fresh in-range keys, each
 	// either from a peer that never opens the announced uTP connection (its accepted keys stay "being received") or from
